@@ -65,6 +65,8 @@ type Server struct {
 	// failNext > 0: the next dataset command is answered with an error and NOT executed (fault injection: a READONLY
 	// replica, an OOM reply, …); decremented per command.
 	failNext int
+	// OnExec, when set, is called (with the server's lock held) for every dataset command before it runs.
+	OnExec func(name string, args [][]byte)
 }
 
 // FailNext makes the next n dataset commands fail with an error reply without executing them.
@@ -459,6 +461,9 @@ func (s *Server) Exec(dbi int, args [][]byte) Reply {
 		cp[i] = append([]byte(nil), a...)
 	}
 	name := strings.ToUpper(string(args[0]))
+	if s.OnExec != nil {
+		s.OnExec(name, cp)
+	}
 	var rep Reply
 	if s.failNext > 0 {
 		s.failNext--
